@@ -56,6 +56,7 @@ def powf(x, y):
 
 
 _mreplay_built = {}
+NATIVE_TIMEOUT_S = 240
 
 
 def build_mreplay(profile):
@@ -89,8 +90,13 @@ def native(case, profiles=("dev", "release")):
             if exe is None:
                 out[prof] = {"error": "build failed"}
                 continue
-            p = subprocess.run([exe, path], stdout=subprocess.PIPE, stderr=subprocess.PIPE, text=True,
-                               env=dict(os.environ, RUST_BACKTRACE="0"))
+            try:
+                p = subprocess.run([exe, path], stdout=subprocess.PIPE, stderr=subprocess.PIPE, text=True,
+                                   env=dict(os.environ, RUST_BACKTRACE="0"), timeout=NATIVE_TIMEOUT_S)
+            except subprocess.TimeoutExpired:
+                # a native run that does not finish is neither a reproduction nor a refutation
+                out[prof] = {"timeout": True, "limit_s": NATIVE_TIMEOUT_S}
+                continue
             line = p.stdout.strip().splitlines()[-1] if p.stdout.strip() else ""
             try:
                 out[prof] = json.loads(line)
